@@ -91,7 +91,7 @@ fn items_of(report: &ReportDataResp<'_>) -> (Vec<Value>, String) {
         for e in evs.iter() {
             match e {
                 Ok(rs_matter::im::EventResp::Data(d)) => out.push(json!({"evno": d.event_number, "len": d.data.str().map(|s| s.len() as i64).unwrap_or(-1)})),
-                Ok(rs_matter::im::EventResp::Status(st)) => out.push(json!({"evno": -1, "status": format!("{:?}", st.status.status)})),
+                Ok(rs_matter::im::EventResp::Status(st)) => out.push(json!({"evno": -1, "len": -1, "status": format!("{:?}", st.status.status)})),
                 Err(e) => { bad = format!("events: {:?}", e.code()); break; }
             }
         }
